@@ -8,3 +8,27 @@ package link_solicit_controller
 //@ func (*Controller).handleMountedStream
 //@   noframe
 //@   ensures ret0 != nil ==> d.HandleMountedStreamProtocolID() == "bifrost/solicit" || hasPrefix(d.HandleMountedStreamProtocolID(), "solicit:")
+
+// ---- C30 / C31: matching a solicited stream against the local solicitations ----
+// bcast guards the solicitation set and the link table; every registered solicitation has a directive.
+//@ guards Controller.bcast: solicitations, links
+//@ lockinv Controller.bcast: forall ss *solicitState :: ss in self.solicitations ==> ss != nil && ss.dir != nil && ss.handler != nil
+
+// A local solicitation matches a stream with hash hb on link ls exactly when its peer and
+// transport constraints admit the link and the hash of (session, protocol ID, context) equals hb.
+//@ spec fun solicitAdmits(ss ptr, ls ptr) bool = (len(ss.dir.SolicitProtocolPeerID()) == 0 || ss.dir.SolicitProtocolPeerID() == ls.ml.GetRemotePeer()) && (ss.dir.SolicitProtocolTransportID() == 0 || ss.dir.SolicitProtocolTransportID() == ls.ml.GetTransportUUID())
+//@ spec fun solicitHashEq(ss ptr, ls ptr, hb bytes) bool = blake3(protoHashPre(ls.sessionID, ss.dir.SolicitProtocolID(), ss.dir.SolicitProtocolContext()))[..32] == hb
+
+// the closure that scans the solicitation set under the lock
+//@ func (*Controller).resolveMatch$1
+//@   loop 1 invariant forall k int :: 0 <= k && k < len(matches) ==> matches[k] != nil && solicitAdmits(matches[k], ls) && solicitHashEq(matches[k], ls, hashBytes)
+
+// One wrapper per stream: the SolicitMountedStream value is created once per call (outside the
+// emission loop), so every matching solicitation receives the same value and its single
+// `accepted` flag arbitrates between them.
+//@ func (*Controller).resolveMatch
+//@   noframe
+//@   nosweep nil-deref
+//@   requires ls != nil && ls.ml != nil && ls.le != nil && len(ls.sessionID) == 32
+//@   assert at call solicit.NewSolicitMountedStream: outsideLoops && same(arg0, ms)
+//@   assert at call invoke.AddValue: same(arg0, sms)
